@@ -190,6 +190,9 @@ func (ch c10) Run(c *core.Ctx) {
 	defer envTLS.Stop()
 	envPlain := hs.Start(hs.Parse, wire.MessageBufferSize(L))
 	envAuth := hs.Start(hs.Parse, wire.MessageBufferSize(L), wire.SessionAuthStrategy(wire.ClearTextPassword(c10validator)))
+	if part == 0 && c.Begin(95000000) {
+		ch.backToBack(c, envPlain, eff)
+	}
 	// another server of the same process with a much larger limit: connections to it come and go between
 	// the cases (whatever it leaves behind, the limit of a server is that server's own)
 	envBig := hs.Start(hs.Parse, wire.MessageBufferSize(2*eff+1000)) // (its own buffers stay under the allocation bound of this process)
@@ -774,3 +777,77 @@ func (ch c10) runCase(c *core.Ctx, envPlain, envAuth *hs.Env, k c10case, idx int
 }
 
 var _ = oid.T_text
+
+// backToBack: refused messages that follow each other directly - oversized then oversized, a length word
+// below the minimum then oversized, an oversized chunk during COPY then another oversized message - the
+// later ones made of well-formed Query messages. Each is skipped in full: nothing inside them reaches the
+// parser, and the probe behind them is answered.
+func (ch c10) backToBack(c *core.Ctx, env *hs.Env, eff int) {
+	if eff > 1<<20 || eff < 100 {
+		return // (below that the start-up packet and the probe do not fit either)
+	}
+	inner := pg.Query("smuggled inside the second of two refused messages")
+	train := func(n int) []byte {
+		var b []byte
+		for len(b) < n {
+			b = append(b, inner...)
+		}
+		return b[:n]
+	}
+	probe := &hs.Prog{Stmts: []*hs.Stmt{{ID: "probe", Cols: textCols(1), Ops: []hs.Op{{K: "row", Vals: []any{"p"}}, {K: "complete", Tag: "SELECT 1"}}}}}
+	copyProg := &hs.Prog{Stmts: []*hs.Stmt{{ID: "copy", Cols: textCols(1), Ops: []hs.Op{{K: "copy", Copy: &hs.CopyPlan{Format: wire.TextFormat, MaxReads: -1, OnErr: "propagate"}}}}}}
+	for v := 0; v < 6; v++ {
+		sess := &hs.Sess{Default: func(q string) *hs.Prog {
+			if q == "c" {
+				return copyProg
+			}
+			return probe
+		}}
+		cl := hs.NewClient(env.Dial(sess))
+		if err := cl.StartupOK("u"); err != nil {
+			c.Violate("startup", "startup failed", err.Error(), nil)
+			return
+		}
+		big := func(t byte, n int) []byte { return pg.Raw(t, train(n)) }
+		var in []byte
+		switch v {
+		case 0:
+			in = append(big('Q', eff+1), big('Q', eff+7)...)
+		case 1:
+			in = append(append(big('P', 2*eff), big('B', eff+1)...), big('Q', 3*eff+5)...)
+		case 2:
+			in = append(pg.Sync(), append(big('D', eff+2), big('Q', eff+1)...)...)
+		case 3:
+			in = append(append(pg.Query("c"), pg.CopyData([]byte("a\n"))...), append(big('d', eff+1), big('d', eff+9)...)...)
+		case 4:
+			in = append(append(pg.Query("c"), big('d', eff+3)...), big('Q', 2*eff+1)...)
+		case 5:
+			in = append(append(big('Q', eff+1), pg.Flush()...), big('Q', eff+2)...)
+		}
+		in = append(append(in, pg.Sync()...), pg.Query("probe behind refused messages")...)
+		out, closed := cl.Step(in)
+		if hangCheck(c, cl, nil) {
+			return
+		}
+		var parsed []string
+		for _, e := range cl.C.Events() {
+			if e.Kind == "cb" && e.Name == "parse" {
+				parsed = append(parsed, e.Data.(hs.ParseRec).Query)
+			}
+		}
+		cl.Finish()
+		c.Count("refused_messages_back_to_back", 1)
+		c.Eval(fmt.Sprintf("back to back %d", v), true)
+		cs := map[string]any{"workload": "refused messages back to back", "variant": v, "limit": eff}
+		for _, q := range parsed {
+			if strings.HasPrefix(q, "smuggled") {
+				c.Violate("smuggled", "bytes inside a refused message reached the parser (refused messages back to back)", fmt.Sprintf("variant %d: parser saw %q; reply %s", v, parsed, trim(replyKinds(out), 300)), cs)
+				return
+			}
+		}
+		if closed || len(parsed) == 0 || parsed[len(parsed)-1] != "probe behind refused messages" || !strings.HasSuffix(pg.Types(mustMsgs(out)), "TDCZ") {
+			c.Violate("reply", "the query behind refused messages that follow each other directly is not served", fmt.Sprintf("variant %d: closed=%v parser saw %q; reply %s", v, closed, parsed, trim(replyKinds(out), 300)), cs)
+			return
+		}
+	}
+}
